@@ -44,7 +44,7 @@ Print Assumptions C01_scripted_total.
 Definition replay_of (ms : max_steps) (objs : store) (bodies : list (list op)) (r : world * script_state * outcome)
   : world * replay_state * outcome :=
   let w := fst (fst r) in
-  run_exec replay ms 200 (compile (length objs) bodies) (objs ++ [OJoins []])
+  run_exec replay ms 200 (compile (length objs) bodies) (objs ++ [OJoins []; OTls []])
            (mkReplay (rev (recorded (w_e w))) (draws (w_trace w)) false false).
 
 (* same world (states, objects, continuations, whole trace), same outcome, no replay panic *)
@@ -158,7 +158,7 @@ Proof. vm_compute. repeat split; reflexivity. Qed.
 (* a different schedule gives a different execution: the replay really follows its input *)
 Example run1_other_schedule :
   let w := fst (fst run1) in
-  let r := run_exec replay MSNone 200 (compile (length objs1) bodies1) (objs1 ++ [OJoins []])
+  let r := run_exec replay MSNone 200 (compile (length objs1) bodies1) (objs1 ++ [OJoins []; OTls []])
              (mkReplay [StTask 0; StTask 0; StTask 0; StTask 2; StRandom] (draws (w_trace w)) false false) in
   snd r = OStopped /\ rp_ended (snd (fst r)) = true /\ rp_failed (snd (fst r)) = false
   /\ w_trace (fst (fst r)) <> w_trace (fst (fst run4)).
@@ -167,7 +167,7 @@ Proof. vm_compute. repeat split; try reflexivity. discriminate. Qed.
 (* and a schedule that does not fit the program makes the replay scheduler panic *)
 Example run1_mismatched_schedule :
   let w := fst (fst run1) in
-  let r := run_exec replay MSNone 200 (compile (length objs1) bodies1) (objs1 ++ [OJoins []])
+  let r := run_exec replay MSNone 200 (compile (length objs1) bodies1) (objs1 ++ [OJoins []; OTls []])
              (mkReplay [StTask 0; StTask 0; StTask 0; StTask 2; StTask 1] (draws (w_trace w)) false false) in
   snd r = OPanic 2 /\ rp_failed (snd (fst r)) = true.
 Proof. vm_compute. repeat split; reflexivity. Qed.
